@@ -7,10 +7,12 @@ reg("C30", [mon("hydro", "hv_tick_emb")],
     technique="runtime monitor: corpus of tick programs compiled by the production code generator, driven tick by "
               "tick with harness-chosen batches; per-tick outputs compared with plain-Rust batch semantics, "
               "cross-tick reference for deferred values, isolation re-run for leaks",
-    text="40 hand-written Hydro flows (fold/reduce/count/max/min/first/last/limit/sort/enumerate/cross_singleton/"
+    text="58 hand-written Hydro flows (fold/reduce/count/max/min/first/last/limit/sort/enumerate/cross_singleton/"
          "join/anti_join/filter_not_in/unique/chain/keyed fold+reduce+first; defer_tick x1/x2 on streams, optionals, "
          "keyed streams, keyed singletons; tick cycles with and without initial value; forward refs; across_ticks; "
-         "first-tick values; snapshots) run through generate_embedded. Every 3-tick history over 13 small batches "
+         "first-tick values; snapshots; 18 flows that use optional_first_tick / tick.singleton / tick.none DIRECTLY as "
+         "the singleton side of cross_singleton, the argument of zip, the condition of filter_if(_some/_none), or "
+         "or/chain/join/anti_join operands) run through generate_embedded. Every 3-tick history over 13 small batches "
          "(two-input flows: 2-tick histories over all batch pairs, a third of them in the quick tier) plus 600 / "
          "12 000 random histories per flow of up to 7 ticks; the rows each tick emits must equal the reference for "
          "exactly that tick (deferred values exactly one tick later, nothing during the 4 quiescence ticks beyond the "
